@@ -66,7 +66,7 @@ ASSUMPTIONS = [
     "part (B) executes the real constructor for the enumerated cell counts only (values symbolic); part (A) covers all cell counts",
     "QuasiUniformGrid requires even cell counts (documented); for odd counts only U and R exist and are compared",
 ]
-MIN_OBLIGATIONS = {"quick": 250, "thorough": 250}
+MIN_OBLIGATIONS = {"quick": 950, "thorough": 2000}
 LEVEL_TEXT = "Deductive proof that the uniform policy, the quasi-uniform policy with equal spacings and the explicit equally spaced rectilinear grid resolve to field-wise equal solver grids and configurations (all cell counts for the edge arrays; enumerated cell counts for the constructor-derived fields), from which identical simulations follow by determinism"
 LEVEL_NOTE = "real arithmetic; the step from equal configurations to equal runs is a stated determinism argument; constructor-derived fields size-bounded"
 AXIOMS = NP.AXIOMS
